@@ -18,6 +18,7 @@ COMMA == 44
 QUOTE == 34
 NL    == 10
 Structural == {COMMA, QUOTE, NL}
+Digit(d) == 48 + d
 
 -----------------------------------------------------------------------------
 (* Parsing (RFC 4180 as pandas' C parser reads it, skip_blank_lines = True).
@@ -88,12 +89,91 @@ ReadBlocks(t, blocks) ==
 ReadByBlocks(t, bs) == ReadBlocks(t, BlocksByCut(t, <<NL>>, Offsets(Len(t), bs)))
 
 -----------------------------------------------------------------------------
+(* Reader options (the pandas.read_csv contract for header=, names=, skiprows=, comment=,
+   skip_blank_lines = True), and what block-wise reading makes of them.
+
+   An option record o = [hdr   |-> -1 (header = "infer") | 0 | 1 | 2 | -2 (header = None),
+                         names |-> BOOLEAN (names = the first o.nc of GivenNames), nc |-> number of columns of the file,
+                         skip  |-> sequence of PHYSICAL line numbers that are skipped (0-based; skiprows = n is
+                                   <<0, ..., n-1>>, skiprows = [i] is <<i>>),
+                         comment |-> BOOLEAN (comment = "#")]
+   pandas:  skiprows counts physical lines (blank and comment lines included); then fully commented lines and
+   blank lines are dropped; header = k is the k-th REMAINING line - the lines before it are discarded, the lines
+   after it are the data; header = "infer" is 0 without names and None with names; header = None: every
+   remaining line is data and the columns are names or 0, 1, ...; names together with an integer header
+   replace the labels of the header line, which is still consumed.                                          *)
+HASH == 35
+RECURSIVE LinesFrom(_, _, _)
+LinesFrom(t, i, cur) == IF i > Len(t) THEN (IF cur = <<>> THEN <<>> ELSE <<cur>>)
+                        ELSE IF t[i] = NL THEN <<cur>> \o LinesFrom(t, i + 1, <<>>)
+                        ELSE LinesFrom(t, i + 1, Append(cur, t[i]))
+PhysLines(t) == LinesFrom(t, 1, <<>>)                         \* physical lines, without their terminators
+FieldsOf(line) == Contents(Records(line \o <<NL>>)[1])       \* line # <<>>
+
+GivenNames == << <<109>>, <<110>>, <<111>> >>                 \* m n o
+DigitNames(nc) == [j \in 1..nc |-> <<Digit(j - 1)>>]          \* the default labels 0, 1, ... as read back through str()
+EffHeader(o) == IF o.hdr = -1 THEN (IF o.names THEN -2 ELSE 0) ELSE o.hdr
+
+IsSkipped(o, phys) == \E j \in DOMAIN o.skip : o.skip[j] = phys
+IsDropped(o, line) == line = <<>> \/ (o.comment /\ line[1] = HASH)
+\* the physical numbers (0-based) of the lines that remain, in order
+Remaining(t, o) == LET ls == PhysLines(t) IN
+                   SelectSeq([i \in DOMAIN ls |-> i - 1], LAMBDA ph : ~IsSkipped(o, ph) /\ ~IsDropped(o, ls[ph + 1]))
+
+ReadErr == [err |-> TRUE, hdr |-> <<>>, rows |-> <<>>]
+ReadOpts(t, o) ==
+  LET ls  == PhysLines(t)
+      rem == Remaining(t, o)
+      eff == EffHeader(o)
+      dataFrom(k) == [r \in 1..(Len(rem) - k) |-> FieldsOf(ls[rem[k + r] + 1])]
+  IN IF rem = <<>>                                                 \* nothing to parse: pandas raises, unless the labels are given
+     THEN IF o.names THEN [err |-> FALSE, hdr |-> SubSeq(GivenNames, 1, o.nc), rows |-> <<>>] ELSE ReadErr
+     ELSE IF eff = -2
+     THEN LET nc == Len(FieldsOf(ls[rem[1] + 1])) IN
+          [err |-> FALSE, hdr |-> IF o.names THEN SubSeq(GivenNames, 1, o.nc) ELSE DigitNames(nc), rows |-> dataFrom(0)]
+     ELSE IF Len(rem) <= eff THEN ReadErr                          \* the header row does not exist: pandas raises
+     ELSE LET hf == FieldsOf(ls[rem[eff + 1] + 1]) IN
+          [err |-> FALSE, hdr |-> IF o.names THEN SubSeq(GivenNames, 1, o.nc) ELSE hf, rows |-> dataFrom(eff + 1)]
+
+(* Block-wise: the first block is read with the options; a later block no longer has a top of file - skiprows
+   and an integer header are not applied to it, the header LINE of the file is put in front of it when the labels
+   come from the file - so every line of a later block that is not blank / commented is a data row.  This equals
+   ReadOpts whenever the first block holds the whole top of the file (all skipped lines and the header line);
+   dask documents "unexpected behavior" for skiprows otherwise.                                              *)
+TopLines(t, o) ==          \* number of physical lines that make up the top of the file
+  LET rem == Remaining(t, o)
+      eff == EffHeader(o)
+      \* the header line; without a header and without names the first remaining line (it fixes the number of columns)
+      hl  == IF eff >= 0 /\ Len(rem) > eff THEN rem[eff + 1] + 1
+             ELSE IF eff = -2 /\ ~o.names /\ rem # <<>> THEN rem[1] + 1 ELSE 0
+      sk  == IF o.skip = <<>> THEN 0 ELSE 1 + CHOOSE x \in {o.skip[j] : j \in DOMAIN o.skip} : \A j \in DOMAIN o.skip : o.skip[j] <= x
+  IN IF hl >= sk THEN hl ELSE sk
+RECURSIVE LineEnd(_, _, _)
+LineEnd(t, i, n) == IF n = 0 THEN i - 1 ELSE IF i > Len(t) THEN Len(t) ELSE LineEnd(t, i + 1, IF t[i] = NL THEN n - 1 ELSE n)
+TopBytes(t, o) == LineEnd(t, 1, TopLines(t, o))            \* length of the prefix holding the top lines
+FirstBlockHoldsTop(t, o, blocks) == Len(blocks) <= 1 \/ Len(blocks[1]) >= TopBytes(t, o)
+\* the same for a blocksize, without building the blocks: the first block ends at Cut(second offset)
+HoldsTopAt(t, top, bs) == LET offs == Offsets(Len(t), bs) IN Len(offs) <= 1 \/ Cut(t, <<NL>>, offs[2]) >= top
+
+LaterRows(block, o) == LET ls == PhysLines(block)
+                           keep == SelectSeq(ls, LAMBDA line : ~IsDropped(o, line))
+                       IN [r \in DOMAIN keep |-> FieldsOf(keep[r])]
+RECURSIVE CatSeqs(_)
+CatSeqs(ss) == IF ss = <<>> THEN <<>> ELSE Head(ss) \o CatSeqs(Tail(ss))
+ReadBlocksOpts(t, o, blocks) ==
+  IF Len(blocks) <= 1 THEN ReadOpts(t, o)
+  ELSE LET first == ReadOpts(blocks[1], o) IN
+       IF first.err THEN ReadErr
+       ELSE [err |-> FALSE, hdr |-> first.hdr,
+             rows |-> first.rows \o CatSeqs([b \in 1..(Len(blocks) - 1) |-> LaterRows(blocks[b + 1], o)])]
+ReadByBlocksOpts(t, o, bs) == ReadBlocksOpts(t, o, BlocksByCut(t, <<NL>>, Offsets(Len(t), bs)))
+
+-----------------------------------------------------------------------------
 (* Typed frames for the round trip.  A cell is <<tag, v>>:
      <<0, 0>> NA     <<1, n>> the integer n >= 0     <<2, k>> the float k / 8, k >= 0
      <<3, id>> the string StrMenu[id]
    A frame is [types |-> tag per column, names |-> column names (strings), rows |-> sequence of
    [idx |-> index label (an integer), cells |-> <<cell, ...>>]].                          *)
-Digit(d) == 48 + d
 RECURSIVE Digits(_)
 Digits(n) == IF n < 10 THEN <<Digit(n)>> ELSE Digits(n \div 10) \o <<Digit(n % 10)>>
 \* decimal digits of e / 8 for e in 0..7 (exact: 8 divides 1000)
